@@ -38,6 +38,8 @@ SCENARIOS = [
                 {'fps': [M('a', [(1, 1, 2)], nmode='644')]}]},
 ]
 FLAGS = ['-a', '-q', '--backup', 'always', '--backup-count', 'all']
+# the other backup modes: fewer operations, other paths through the drivers' error handling
+ALT_FLAGS = {'never': ['-a', '-q', '--backup', 'never'], 'default': ['-a', '-q']}
 
 
 def setup(sc):
@@ -83,14 +85,15 @@ def judge(w, rc, se, before_applied, fault_path, fault_op, trace_events):
 
 
 def hook_count(job):
-    sc, threads = job
+    sc, threads = job[:2]
+    flags = ALT_FLAGS[job[2]] if len(job) > 2 else FLAGS
     w = setup(sc)
     try:
         trace = w + '.trace'
         env = {'RAPIDQUILT_VERIF_TRACE': trace}
         if threads > 1:
             env['RAPIDQUILT_VERIF_SCHEDULE'] = round_robin(sc)
-        rc, so, se = ws.push(w, FLAGS + ['--threads', threads], env=env)
+        rc, so, se = ws.push(w, flags + ['--threads', threads], env=env)
         evs = [json.loads(l) for l in open(trace)] if os.path.exists(trace) else []
         os.path.exists(trace) and os.unlink(trace)
         io = [e for e in evs if e['ev'] in IO_EVENTS]
@@ -104,14 +107,15 @@ IO_EVENTS = ('unlink', 'mkdirp', 'create', 'chmod', 'write', 'readdir', 'rmdir',
 
 
 def hook_fault(job):
-    sc, threads, k, kind = job
+    sc, threads, k, kind = job[:4]
+    flags = ALT_FLAGS[job[4]] if len(job) > 4 else FLAGS
     w = setup(sc)
     try:
         trace = w + '.trace'
         env = {'RAPIDQUILT_VERIF_TRACE': trace, 'RAPIDQUILT_VERIF_FAIL_AT': str(k), 'RAPIDQUILT_VERIF_FAIL_KIND': kind}
         if threads > 1:
             env['RAPIDQUILT_VERIF_SCHEDULE'] = round_robin(sc)
-        rc, so, se = ws.push(w, FLAGS + ['--threads', threads], env=env)
+        rc, so, se = ws.push(w, flags + ['--threads', threads], env=env)
         evs = [json.loads(l) for l in open(trace)] if os.path.exists(trace) else []
         os.path.exists(trace) and os.unlink(trace)
         f = [e for e in evs if e['ev'] == 'fault']
@@ -239,8 +243,25 @@ def check(prop, tier):
                 for cat, msg in probs:
                     res.violation(cat + ':' + info[0], msg + ' (hook injector, %s error, %s, threads %d, k=%d)' % (kind, sc['name'], t, k),
                                   {'scenario': sc, 'threads': t, 'fail_at': k, 'operation': info})
+            # the same with --backup never and with the default (onfail): every operation once (thorough: both error kinds, 1-2 threads)
+            acombos = [(sc, t, m) for sc in SCENARIOS for t in ((1,) if tier == 'quick' else (1, 2)) for m in ('never', 'default')]
+            acounts = pool.map(hook_count, acombos)
+            ajobs = []
+            for (sc, t, m), (rc, n, ops) in zip(acombos, acounts):
+                res.cov['parts']['hook/%s/threads%d/backup-%s' % (sc['name'], t, m)] = {'output_operations': n, 'fault_free_exit': rc}
+                ajobs += [(sc, t, k, kind, m) for k in range(1, n + 1) for kind in (('other',) if tier == 'quick' else ('other', 'denied'))]
+            aouts = pool.map(hook_fault, ajobs, chunksize=4)
+            na = 0
+            for (sc, t, k, kind, m), (probs, info) in zip(ajobs, aouts):
+                if probs is None:
+                    continue
+                na += 1
+                for cat, msg in probs:
+                    res.violation(cat + ':' + info[0], msg + ' (hook injector, %s error, %s, threads %d, k=%d, backup %s)' % (kind, sc['name'], t, k, m),
+                                  {'scenario': sc, 'threads': t, 'fail_at': k, 'operation': info, 'backup': m})
+            nf += na
             total += nf
-            res.cov['parts']['hook-injector'] = {'faulted_runs': nf}
+            res.cov['parts']['hook-injector'] = {'faulted_runs': nf, 'of_them_with_backup_never_or_default': na}
             # (ii) strace injector, sequential driver
             t1 = pool.map(strace_targets, SCENARIOS)
             sjobs = []
